@@ -825,7 +825,8 @@ class Scan:
                     continue
                 pe = elts[idx if idx is not None else 0]
                 an = fw.alias_name(pe)
-                Rw = fw.cls_of(an) if an is not None else None
+                rs = fw.roots(pe)
+                Rw = rs[0] if len(rs) == 1 else (fw.cls_of(an) if an is not None else None)
                 env_y = dict(env or {})
                 for te, ye in zip(telts, elts):
                     if isinstance(te, ast.Name) and te.id != n:
@@ -903,14 +904,20 @@ class Scan:
         names = list(g.param_names)
         if g.cls is not None and g.outer is None and not g.is_staticmethod and names and isinstance(call.func, ast.Attribute):
             names = names[1:]
+        def cls(a: ast.expr):
+            an = fh.alias_name(a)
+            if an is not None:
+                rs = fh.roots(ast.Name(id=an, ctx=ast.Load()))
+                return rs[0] if len(rs) == 1 else fh.cls_of(an)
+            rs = fh.roots(a)  # something derived from a path (its module name, its text): the guard is about that path
+            return rs[0] if len(rs) == 1 else None
+
         for p, a in zip(names, call.args):
             if p in R and not isinstance(a, ast.Starred):
-                an = fh.alias_name(a)
-                return fh.cls_of(an) if an is not None else None
+                return cls(a)
         for kw in call.keywords:
             if kw.arg in R:
-                an = fh.alias_name(kw.value)
-                return fh.cls_of(an) if an is not None else None
+                return cls(kw.value)
         return None
 
     # ------------------------------------------------------------------ events
